@@ -39,13 +39,17 @@ def scope_programs(chk):
     for t in gen_scope.method_trees():
         add(t)
     n_meth = len(progs) - n2
+    # exhaustive: every binder of an expression scope below every storage form of a same-named function variable
+    for t in gen_scope.binder_trees():
+        add(t)
+    n_bind = len(progs) - n2 - n_meth
     n_exh = len(progs)
     n_rand = 800 if chk.tier == "quick" else 12000
     tries = 0
     while len(progs) < n_exh + n_rand and tries < n_rand * 40:
         tries += 1
         add(gen_scope.random_tree(rng, "module", rng.choice([3, 3, 4]), 2))
-    return progs, {"exhaustive_depth2_chains": n2, "exhaustive_method_classref_trees": n_meth, "random_trees": len(progs) - n_exh, "by_depth": shapes,
+    return progs, {"exhaustive_depth2_chains": n2, "exhaustive_method_classref_trees": n_meth, "exhaustive_inner_binder_trees": n_bind, "random_trees": len(progs) - n_exh, "by_depth": shapes,
                    "candidates_rejected_by_cpython": len(seen) - len(progs)}
 
 
@@ -117,8 +121,14 @@ def run(chk, build, replay=None):
             _, r311 = hostrun.run_on(exe, srcs, diffexec.ALL_CONFIGS)
             for s, r in zip(srcs, r311):
                 pre[s] = {tuple(tr): st for tr, st, _ in r}
+        # the other face of the same interpreter defect: no exception, the SCRIPT itself leaks a comprehension variable on 3.12+
+        import sys as _sys
+        leak = hostrun.pep709_source_defect([(s, tr) for s, tr, st, _ in suspects if st == "differs"], _sys.executable)
         for src, tr, st, detail in suspects:
             if st == "differs" and any(m in detail for m in HOST_BUG_MARK) and pre.get(src, {}).get(tuple(tr)) == "same":
+                host_bug += 1
+                continue
+            if st == "differs" and (src, tuple(tr)) in leak:
                 host_bug += 1
                 continue
             chk.add_violation("a name refers to a different variable in the converted program (output or final namespace differs)",
@@ -135,9 +145,12 @@ def run(chk, build, replay=None):
             continue
         ver, rr = hostrun.run_on(exe, hs, triples)
         c = {}
+        leak = set()
+        if major >= (3, 12):
+            leak = hostrun.pep709_source_defect([(src, tr) for src, r in zip(hs, rr) for tr, st, _ in r if st == "differs"], exe)
         for src, r in zip(hs, rr):
             for tr, st, detail in r:
-                if st == "differs" and major >= (3, 12) and any(m in detail for m in HOST_BUG_MARK):
+                if st == "differs" and major >= (3, 12) and (any(m in detail for m in HOST_BUG_MARK) or (src, tuple(tr)) in leak):
                     st = "attributed-to-cpython-pep709-defect"
                 c[st] = c.get(st, 0) + 1
                 if st not in ("same", "source-raises", "attributed-to-cpython-pep709-defect"):
